@@ -435,11 +435,11 @@ Theorem C04_B_cyclic_sound g root nd :
   root_okb nd = true
   /\ (forall t, In t (expand (to_tree_explicit nd)) <-> In t (map shape (derivs nd)))
   /\ (forall d, In d (derivs nd) -> gder g root [d]).
-Proof. exact (graph_explicit_sound g). Qed.
+Proof. intros Hw. exact (graph_explicit_sound g Hw root nd). Qed.
 Print Assumptions C04_B_cyclic_sound.
 
 Theorem C04_B_cyclic_total g root : gwfb g = true -> root < length g -> gunfold g root <> None.
-Proof. exact (gunfold_total g). Qed.
+Proof. intros Hw. exact (gunfold_total g Hw root). Qed.
 Print Assumptions C04_B_cyclic_total.
 
 (* What is kept on a cyclic forest is not "the derivations in which no node repeats on a path" (sder), in either
